@@ -1,3 +1,5 @@
 module github.com/free5gc/ike
 
 go 1.21
+
+require github.com/pkg/errors v0.9.1
